@@ -190,6 +190,9 @@ FIXED = [
     '\\begin{equation}1+1\\end{equation}', '\\a{\\b{\\c{\\d{e}}}}', '{[}', '\\begin{e}{x}[y] z\\end{e}',
 ]
 
+import gen as _gen  # noqa: E402
+FIXED = FIXED + _gen.blank_run_docs()
+
 
 def selftest(driver_path=None, n=3000, seed=0, verbose=True):
     """Differential self-test of `impl_nav` against the driver's `nav` request."""
